@@ -5,14 +5,15 @@ use std::str::FromStr;
 use elements::confidential::{Asset, AssetBlindingFactor, Nonce, Value, ValueBlindingFactor};
 use elements::encode::{deserialize, serialize};
 use elements::pset::{Input, Output, PartiallySignedTransaction as Pset};
-use elements::secp256k1_zkp::{PublicKey, SecretKey};
-use elements::{bitcoin, AssetId, BlindAssetProofs, BlindValueProofs, CtLocation, CtLocationType, OutPoint, Script, TxOut, TxOutSecrets, TxOutWitness};
+use elements::secp256k1_zkp::{Generator, PedersenCommitment, PublicKey, SecretKey, Tweak, ZERO_TWEAK};
+use elements::{bitcoin, AssetId, AssetIssuance, BlindAssetProofs, BlindValueProofs, CtLocation, CtLocationType, OutPoint, Script, Sequence, TxIn, TxInWitness, TxOut, TxOutSecrets, TxOutWitness};
 use rand::SeedableRng;
 use rand_chacha::ChaCha20Rng;
 use serde_json::json;
 
 use crate::engine::*;
 use crate::gen::ct::{self, abf_from, vbf_from};
+use crate::gen::ext_g3 as ext;
 use crate::gen::{self, pool, secp};
 use crate::{ensure, ensure_eq};
 
@@ -32,7 +33,9 @@ pub struct Case {
     secrets: Vec<HashMap<usize, TxOutSecrets>>,
     outs: Vec<OutSpec>,
     n_assets: usize,
-    has_issuance: bool,
+    /// shapes for the histogram
+    shapes: Vec<&'static str>,
+    n_issuances: usize,
     seeds: Vec<[u8; 32]>,
 }
 
@@ -58,80 +61,175 @@ fn split(t: &mut Tape, total: u64, parts: usize) -> Vec<u64> {
     out
 }
 
+struct Iss {
+    nonce: Option<Tweak>,
+    entropy: [u8; 32],
+    amount: Option<u64>,
+    keys: Option<u64>,
+    asset_id: AssetId,
+    token_id: AssetId,
+}
+
+struct InSpec {
+    party: usize,
+    sec: TxOutSecrets,
+    utxo: TxOut,
+    outpoint: OutPoint,
+    iss: Option<Iss>,
+}
+
 fn gen_case(t: &mut Tape) -> Case {
     let p = pool();
+    let s = secp();
     let k = 1 + t.below(4);
     let n_assets = 1 + t.below(3);
+    let mut shapes: Vec<&'static str> = Vec::new();
+    // ---- inputs: 1..4 per party, every form of spent output, any number of issuances
+    let mut ins: Vec<InSpec> = Vec::new();
+    for party in 0..k {
+        let n_in = match t.below(8) {
+            0..=3 => 1,
+            4 | 5 => 2,
+            6 => 3,
+            _ => 4,
+        };
+        for _ in 0..n_in {
+            let salt = ins.len() as u32;
+            let asset = p.assets[t.below(n_assets)];
+            let value = amount(t);
+            // as in gen::ct: bit 0 = confidential, >= 0xc0 = partially blinded (odd: asset only, even: amount only)
+            let form = t.u8();
+            let conf = form & 1 == 1;
+            let partial = form >= 0xc0;
+            let (abf, vbf) = match (conf, partial) {
+                (true, false) => (abf_from(t, salt), vbf_from(t, salt)),
+                (true, true) => (abf_from(t, salt), ValueBlindingFactor::zero()),
+                (false, true) => (AssetBlindingFactor::zero(), vbf_from(t, salt)),
+                (false, false) => (AssetBlindingFactor::zero(), ValueBlindingFactor::zero()),
+            };
+            let gen = if abf == AssetBlindingFactor::zero() { Generator::new_unblinded(s, asset.into_tag()) } else { Generator::new_blinded(s, asset.into_tag(), abf.into_inner()) };
+            let utxo = TxOut {
+                asset: if abf == AssetBlindingFactor::zero() { Asset::Explicit(asset) } else { Asset::Confidential(gen) },
+                value: if vbf == ValueBlindingFactor::zero() { Value::Explicit(value) } else { Value::Confidential(PedersenCommitment::new(s, value, vbf.into_inner(), gen)) },
+                nonce: Nonce::Null,
+                script_pubkey: ext::std_script_ext(t).0,
+                witness: TxOutWitness::empty(),
+            };
+            if partial {
+                shapes.push(if conf { "input:asset-only-blinded" } else { "input:amount-only-blinded" });
+            }
+            let outpoint = OutPoint { txid: gen::gen_txid(t), vout: gen::gen_vout(t) & 0xffff };
+            // explicit, unblinded issuance pseudo-inputs: asset, asset + token, token only, reissuance
+            let iss = if t.chance(48) {
+                let kind = t.below(4);
+                let (amount_, keys, nonce) = match kind {
+                    0 => (Some(amount(t)), None, None),
+                    1 => (Some(amount(t)), Some(amount(t)), None),
+                    2 => (None, Some(amount(t)), None),
+                    _ => (Some(amount(t)), None, Some(gen::gen_tweak(t))),
+                };
+                // a new issuance may spell its zero nonce out
+                let nonce = match nonce {
+                    None if t.chance(64) => Some(ZERO_TWEAK),
+                    n => n,
+                };
+                let entropy = t.arr32();
+                // ids by the harness's own derivation
+                let txin = TxIn {
+                    previous_output: outpoint,
+                    is_pegin: false,
+                    script_sig: Script::new(),
+                    sequence: Sequence::MAX,
+                    asset_issuance: AssetIssuance {
+                        asset_blinding_nonce: nonce.unwrap_or(ZERO_TWEAK),
+                        asset_entropy: entropy,
+                        amount: amount_.map_or(Value::Null, Value::Explicit),
+                        inflation_keys: keys.map_or(Value::Null, Value::Explicit),
+                    },
+                    witness: TxInWitness::empty(),
+                };
+                let (asset_id, token_id) = ct::ref_issuance_ids(&txin);
+                shapes.push(["issuance:asset-only", "issuance:asset+token", "issuance:token-only", "issuance:reissuance"][kind]);
+                Some(Iss { nonce, entropy, amount: amount_, keys, asset_id, token_id })
+            } else {
+                None
+            };
+            ins.push(InSpec { party, sec: TxOutSecrets::new(asset, abf, value, vbf), utxo, outpoint, iss });
+        }
+    }
+    // ---- ownership is a partition, not a sequence of blocks: shuffle (an exhausted tape keeps the order)
+    for i in (1..ins.len()).rev() {
+        let j = i - t.below(i + 1);
+        ins.swap(i, j);
+    }
+    if ins.windows(2).any(|w| w[0].party > w[1].party) {
+        shapes.push("inputs:interleaved-ownership");
+    }
+    if ins[0].party != 0 {
+        shapes.push("inputs:input-0-not-owned-by-party-0");
+    }
     let mut pset = Pset::new_v2();
     let mut utxos = Vec::new();
     let mut secrets: Vec<HashMap<usize, TxOutSecrets>> = vec![HashMap::new(); k];
-    // (asset -> total), (asset -> holders)
     let mut totals: BTreeMap<AssetId, u64> = BTreeMap::new();
     let mut holders: BTreeMap<AssetId, Vec<usize>> = BTreeMap::new();
     let mut party_inputs: Vec<Vec<usize>> = vec![Vec::new(); k];
-    let mut has_issuance = false;
+    // (asset, amount, issuing party)
     let mut issued: Vec<(AssetId, u64, usize)> = Vec::new();
-    for party in 0..k {
-        let n_in = 1 + t.below(2);
-        for _ in 0..n_in {
-            let idx = utxos.len();
-            let asset = p.assets[t.below(n_assets)];
-            let value = amount(t);
-            let conf = t.chance(170);
-            let (abf, vbf) = if conf { (abf_from(t, idx as u32), vbf_from(t, idx as u32)) } else { (AssetBlindingFactor::zero(), ValueBlindingFactor::zero()) };
-            let utxo = if conf {
-                TxOut {
-                    asset: Asset::new_confidential(secp(), asset, abf),
-                    value: Value::new_confidential_from_assetid(secp(), value, asset, vbf, abf),
-                    nonce: Nonce::Null,
-                    script_pubkey: ct::std_script(t),
-                    witness: TxOutWitness::empty(),
-                }
-            } else {
-                TxOut { asset: Asset::Explicit(asset), value: Value::Explicit(value), nonce: Nonce::Null, script_pubkey: ct::std_script(t), witness: TxOutWitness::empty() }
-            };
-            let mut inp = Input::from_prevout(OutPoint { txid: gen::gen_txid(t), vout: gen::gen_vout(t) & 0xffff });
-            inp.witness_utxo = Some(utxo.clone());
-            // an explicit, unblinded issuance whose owner receives the issued asset
-            if !has_issuance && t.chance(40) {
-                has_issuance = true;
-                let a = amount(t);
-                inp.issuance_value_amount = Some(a);
-                inp.issuance_asset_entropy = Some(t.arr32());
-                inp.blinded_issuance = Some(0);
-                let (asset_id, _) = inp.issuance_ids();
-                issued.push((asset_id, a, party));
+    let mut n_issuances = 0;
+    for (idx, spec) in ins.iter().enumerate() {
+        let mut inp = Input::from_prevout(spec.outpoint);
+        inp.witness_utxo = Some(spec.utxo.clone());
+        if let Some(iss) = &spec.iss {
+            n_issuances += 1;
+            inp.issuance_value_amount = iss.amount;
+            inp.issuance_inflation_keys = iss.keys;
+            inp.issuance_blinding_nonce = iss.nonce;
+            inp.issuance_asset_entropy = Some(iss.entropy);
+            inp.blinded_issuance = Some(0);
+            if let Some(a) = iss.amount {
+                issued.push((iss.asset_id, a, spec.party));
             }
-            pset.add_input(inp);
-            utxos.push(utxo);
-            secrets[party].insert(idx, TxOutSecrets::new(asset, abf, value, vbf));
-            party_inputs[party].push(idx);
-            *totals.entry(asset).or_insert(0) += value;
-            let h = holders.entry(asset).or_default();
-            if !h.contains(&party) {
-                h.push(party);
+            if let Some(kk) = iss.keys {
+                issued.push((iss.token_id, kk, spec.party));
             }
         }
+        pset.add_input(inp);
+        utxos.push(spec.utxo.clone());
+        secrets[spec.party].insert(idx, spec.sec);
+        party_inputs[spec.party].push(idx);
+        *totals.entry(spec.sec.asset).or_insert(0) += spec.sec.value;
+        let h = holders.entry(spec.sec.asset).or_default();
+        if !h.contains(&spec.party) {
+            h.push(spec.party);
+        }
     }
-    // every party gets at least one blinded output, of an asset it holds
+    if n_issuances >= 2 {
+        shapes.push("issuance:two-or-more-issuing-inputs");
+    }
+    // ---- outputs: every party gets at least one blinded output, of an asset it holds
     let mut guaranteed: BTreeMap<AssetId, Vec<usize>> = BTreeMap::new();
     for party in 0..k {
         let mine: Vec<AssetId> = holders.iter().filter(|(_, h)| h.contains(&party)).map(|(a, _)| *a).collect();
         let a = mine[t.below(mine.len())];
         guaranteed.entry(a).or_default().push(party);
     }
+    // now and then one holder receives many outputs
+    let fan_out = t.chance(48);
     let mut outs: Vec<OutSpec> = Vec::new();
     for (asset, total) in &totals {
         let g = guaranteed.get(asset).cloned().unwrap_or_default();
         let h = &holders[asset];
-        let room = total.saturating_sub(g.len() as u64).min(3) as usize;
-        let extras = t.below(room + 1);
+        let room = total.saturating_sub(g.len() as u64).min(if fan_out { 4 } else { 3 }) as usize;
+        let extras = if fan_out { room } else { t.below(room + 1) };
         // an asset nobody is guaranteed an output of must still be spent somewhere
         let extras = if g.is_empty() && extras == 0 { 1 } else { extras };
         let parts = split(t, *total, g.len() + extras);
         for (i, v) in parts.into_iter().enumerate() {
             if i < g.len() {
                 outs.push(OutSpec { asset: *asset, value: v, owner: Some(g[i]), fee: false, receiver: None });
+            } else if fan_out && t.chance(192) {
+                outs.push(OutSpec { asset: *asset, value: v, owner: Some(h[0]), fee: false, receiver: None });
             } else {
                 match t.below(3) {
                     0 => outs.push(OutSpec { asset: *asset, value: v, owner: Some(h[t.below(h.len())]), fee: false, receiver: None }),
@@ -141,10 +239,24 @@ fn gen_case(t: &mut Tape) -> Case {
             }
         }
     }
+    // issued assets and tokens: blinded by the issuing party, left explicit, or paid as fee
     for (asset, a, party) in &issued {
-        let parts = if *a >= 2 && t.bool() { split(t, *a, 2) } else { vec![*a] };
-        for v in parts {
-            outs.push(OutSpec { asset: *asset, value: v, owner: Some(*party), fee: false, receiver: None });
+        let n_parts = 1 + t.below((*a).min(3) as usize);
+        for v in split(t, *a, n_parts) {
+            match t.below(4) {
+                0 => {
+                    outs.push(OutSpec { asset: *asset, value: v, owner: None, fee: false, receiver: None });
+                    shapes.push("issued-asset:explicit-output");
+                }
+                1 => {
+                    outs.push(OutSpec { asset: *asset, value: v, owner: None, fee: true, receiver: None });
+                    shapes.push("issued-asset:fee-output");
+                }
+                _ => {
+                    outs.push(OutSpec { asset: *asset, value: v, owner: Some(*party), fee: false, receiver: None });
+                    shapes.push("issued-asset:blinded-by-issuer");
+                }
+            }
         }
     }
     for i in (1..outs.len()).rev() {
@@ -152,21 +264,39 @@ fn gen_case(t: &mut Tape) -> Case {
         outs.swap(i, j);
     }
     for o in outs.iter_mut() {
-        let spk = if o.fee { Script::new() } else { ct::std_script(t) };
+        let spk = if o.fee {
+            Script::new()
+        } else if o.owner.is_none() && t.chance(40) {
+            shapes.push("explicit-output:burn-script");
+            ext::burn_script(t).0
+        } else {
+            // a blinded output needs a script an address stands for (non-last blinding goes through Address)
+            let (spk, new_shape) = ext::std_script_ext(t);
+            if new_shape && o.owner.is_some() {
+                shapes.push("blinded-output:p2wsh-or-v1plus-script");
+            }
+            spk
+        };
         let mut out = Output::new_explicit(spk, o.value, o.asset, None);
         if let Some(party) = o.owner {
             let sk = p.seckeys[t.below(p.seckeys.len())];
             o.receiver = Some(sk);
             out.blinding_key = Some(bitcoin::PublicKey { inner: PublicKey::from_secret_key(secp(), &sk), compressed: true });
             let mine = &party_inputs[party];
-            out.blinder_index = Some(mine[t.below(mine.len())] as u32);
+            let pick = t.below(mine.len());
+            if pick > 0 {
+                shapes.push("blinder-index:not-the-party's-first-input");
+            }
+            out.blinder_index = Some(mine[pick] as u32);
         }
         pset.add_output(out);
     }
     // distinct RNG seeds per party even on an exhausted tape (equal seeds would make two parties draw
     // the same blinding factors and publish the same scalar, which real blinders do not)
     let seeds = (0..k + 1).map(|i| ct::fresh_scalar(t, 5000 + i as u32)).collect();
-    Case { pset, utxos, secrets, outs, n_assets: totals.len() + issued.len(), has_issuance, seeds }
+    shapes.sort_unstable();
+    shapes.dedup();
+    Case { pset, utxos, secrets, outs, n_assets: totals.len() + issued.len(), shapes, n_issuances, seeds }
 }
 
 fn hop(p: &Pset, base64: bool) -> Result<Pset, Failure> {
@@ -221,7 +351,8 @@ fn run_order(case: &Case, order: &[usize], hops: &[bool], ctx: &mut Ctx) -> Resu
             }
         }
         if !is_last {
-            ensure_eq!(pset.global.scalars.len(), step + 1, "number of published scalars after {} non-last blinders", step + 1);
+            // the statement constrains the final scalar list only; the running count is a statistic
+            ctx.class(if pset.global.scalars.len() == step + 1 { "scalars:one-per-non-last-blinder-so-far" } else { "scalars:other-count-after-a-non-last-step" });
         }
     }
     pset = hop(&pset, false)?;
@@ -239,6 +370,17 @@ fn check_final(case: &Case, pset: &Pset, factors: &Factors, ctx: &mut Ctx) -> R 
     if let Err(e) = v {
         return Err(Failure::new(format!("the extracted transaction does not pass amount verification: {} ({:?})", e, e)));
     }
+    // ... and by the rule itself (Elements VerifyAmounts on the zkp primitives, harness-side issuance ids
+    // and domain order: input, its issuance, its token, next input)
+    if let Err(e) = ext::ref_verify(&tx, &case.utxos) {
+        return Err(Failure::new(format!(
+            "the extracted transaction is accepted by verify_tx_amt_proofs but does not pass amount verification as Elements defines it (independent verifier): {}",
+            e
+        )));
+    }
+    ctx.eval();
+    ensure_eq!(pset.outputs().len(), case.outs.len(), "number of outputs after blinding");
+    ensure_eq!(tx.output.len(), case.outs.len(), "number of outputs of the extracted transaction");
     for (j, spec) in case.outs.iter().enumerate() {
         let o = &pset.outputs()[j];
         match spec.receiver {
@@ -258,7 +400,8 @@ fn check_final(case: &Case, pset: &Pset, factors: &Factors, ctx: &mut Ctx) -> R 
                             ensure!(Asset::new_confidential(secp(), spec.asset, *abf) == tx.output[j].asset, "reported abf does not reproduce the asset commitment of output {}", j);
                             ensure!(Value::new_confidential_from_assetid(secp(), spec.value, spec.asset, *vbf, *abf) == tx.output[j].value, "reported vbf does not reproduce the value commitment of output {}", j);
                         } else {
-                            return Err(Failure::new(format!("no blinding factors were reported for output {}", j)));
+                            // the returned map is not part of this property's statement
+                            ctx.class("factors-not-reported-for-a-blinded-output(counted only)");
                         }
                     }
                     Err(e) => return Err(Failure::new(format!("receiver cannot unblind output {}: {}", j, e))),
@@ -288,22 +431,49 @@ fn histories(t: &mut Tape, ctx: &mut Ctx) -> R {
         order.swap(i, j);
     }
     let hops: Vec<bool> = (0..4).map(|_| t.chance(64)).collect();
-    let (pset, factors) = run_order(&case, &order, &hops, ctx)?;
-    check_final(&case, &pset, &factors, ctx)?;
+    // what the case looks like, for failure messages
+    let context = |f: Failure, order: &[usize]| -> Failure {
+        let owners: Vec<Option<usize>> = (0..case.utxos.len()).map(|i| case.secrets.iter().position(|m| m.contains_key(&i))).collect();
+        let outs: Vec<String> = case
+            .outs
+            .iter()
+            .enumerate()
+            .map(|(j, o)| format!("{}:{}", j, match (o.owner, o.fee) { (Some(p), _) => format!("blinded-by-{}(index {}, script {:02x?}.. {} bytes)", p, case.pset.outputs()[j].blinder_index.unwrap_or(u32::MAX), case.pset.outputs()[j].script_pubkey.as_bytes().iter().take(2).collect::<Vec<_>>(), case.pset.outputs()[j].script_pubkey.len()), (None, true) => "fee".into(), _ => "explicit".into() }))
+            .collect();
+        let input_forms: Vec<&str> = case.utxos.iter().map(|u| match (u.asset.is_confidential(), u.value.is_confidential()) { (true, true) => "conf", (true, false) => "asset-only", (false, true) => "amount-only", _ => "explicit" }).collect();
+        let issuing: Vec<usize> = (0..case.utxos.len()).filter(|i| case.pset.inputs()[*i].has_issuance()).collect();
+        Failure { msg: clip(format!("{}\n order={:?} owner of each input={:?} input forms={:?} issuing inputs={:?}\n outputs=[{}]\n shapes={:?}", f.msg, order, owners, input_forms, issuing, outs.join(", "), case.shapes)), panic_loc: f.panic_loc }
+    };
+    let (pset, factors) = run_order(&case, &order, &hops, ctx).map_err(|f| context(f, &order))?;
+    check_final(&case, &pset, &factors, ctx).map_err(|f| context(f, &order))?;
     // another permutation of the same case must succeed as well
     if k >= 2 {
         let mut other = order.clone();
         other.rotate_left(1 + t.below(k - 1));
-        let (pset2, factors2) = run_order(&case, &other, &hops, ctx)?;
-        check_final(&case, &pset2, &factors2, ctx)?;
+        let (pset2, factors2) = run_order(&case, &other, &hops, ctx).map_err(|f| context(f, &other))?;
+        check_final(&case, &pset2, &factors2, ctx).map_err(|f| context(f, &other))?;
         ctx.class("second-permutation");
     }
     let per_party: Vec<usize> = (0..k).map(|p| case.outs.iter().filter(|o| o.owner == Some(p)).count()).collect();
     let nt = (k >= 2 && case.n_assets >= 2) || k >= 3 || per_party.iter().any(|n| *n >= 2);
     ctx.class(&format!("parties:{}", k));
     ctx.class(&format!("assets:{}", case.n_assets.min(4)));
-    if case.has_issuance {
+    ctx.class(&format!("inputs:{}", match case.utxos.len() { 1 => "1", 2 => "2", 3..=4 => "3-4", 5..=8 => "5-8", _ => "9+" }));
+    if case.n_issuances > 0 {
         ctx.class("with-issuance");
+    }
+    for sh in &case.shapes {
+        ctx.class(sh);
+    }
+    if k >= 2 {
+        if per_party[order[k - 1]] >= 3 {
+            ctx.class("last-blinder:>=3-outputs");
+        }
+        if order[..k - 1].iter().any(|p| per_party[*p] >= 2) {
+            ctx.class("non-last-blinder:>=2-outputs");
+        }
+    } else if per_party[0] >= 3 {
+        ctx.class("single-blinder:>=3-outputs");
     }
     if nt {
         ctx.nontrivial(&(serialize(&case.pset), order.clone()));
@@ -312,7 +482,8 @@ fn histories(t: &mut Tape, ctx: &mut Ctx) -> R {
     if ctx.wants_sample(&cls) {
         ctx.sample(&cls, || json!({"parties": k, "order": order, "base64_hops": hops, "inputs": case.utxos.len(),
             "outputs": case.outs.iter().map(|o| json!({"value": o.value, "blinded_by": o.owner, "fee": o.fee})).collect::<Vec<_>>(),
-            "issuance": case.has_issuance}));
+            "owner_of_input": (0..case.utxos.len()).map(|i| case.secrets.iter().position(|m| m.contains_key(&i))).collect::<Vec<_>>(),
+            "issuances": case.n_issuances, "shapes": case.shapes.clone()}));
     }
     Ok(())
 }
@@ -320,17 +491,23 @@ fn histories(t: &mut Tape, ctx: &mut Ctx) -> R {
 pub fn property() -> Property {
     Property {
         id: "C09",
-        rule: "histories: 1..4 parties, each owning 1..2 inputs (confidential with known secrets, or explicit) over 1..3 assets \
-               (+ optional explicit unblinded issuance whose owner receives the issued asset); per-asset totals split into \
-               outputs: >=1 blinded output per party of an asset it holds plus extra blinded (assigned by blinder index to any \
-               holder of that asset), explicit and fee outputs, tape order; amounts balance per asset globally but not per \
-               party. History = a tape permutation of the parties, all but the last running blind_non_last with only their own \
-               secrets, the last blind_last, with a binary or base64 serialize/deserialize hop before every step and after \
-               the last; a second rotation of the same case is run too. Oracle: every step Ok; #scalars == #non-last blinders \
-               done; finally scalars empty, every marked output fully blinded, extract_tx().verify_tx_amt_proofs(utxos) Ok, \
-               each output unblinds with its receiver key to (asset, value), reported factors reproduce the commitments, \
-               stored blind_value_proof / blind_asset_proof verify. Non-trivial: >=2 parties and >=2 assets, or >=3 parties, \
-               or a party with >=2 outputs; distinct by (initial PSET, order).",
+        rule: "histories: 1..4 parties, each owning 1..4 inputs in ANY positions (tape shuffle of the input list; ownership \
+               interleaved, input 0 not necessarily party 0's) over 1..3 assets; spent outputs explicit, confidential or \
+               partially blinded (asset only / amount only) with the owner knowing the secrets; any number of inputs carry an \
+               explicit unblinded issuance: asset only, asset + inflation keys, keys only, or a reissuance (non-zero nonce), ids \
+               by the harness's own derivation; per-asset totals split into outputs: >=1 blinded output per party of an asset \
+               it holds plus extra blinded (assigned by blinder index - any of the party's inputs - to any holder of that \
+               asset; now and then one holder gets up to 4 more), explicit (also on OP_RETURN / oversize scripts) and fee \
+               outputs; issued assets and tokens go to outputs blinded by the issuer, explicit outputs or fees; blinded \
+               outputs on p2pkh / p2sh / v0 20+32 / v1 2..40 bytes / v2..v16 scripts; tape order; amounts balance per asset \
+               globally but not per party. History = a tape permutation of the parties, all but the last running \
+               blind_non_last with only their own secrets, the last blind_last, with a binary or base64 serialize/deserialize \
+               hop before every step and after the last; a second rotation of the same case is run too. Oracle: every step \
+               Ok; finally scalars empty, every marked output fully blinded, extract_tx().verify_tx_amt_proofs(utxos) Ok AND \
+               the harness's own amount verifier Ok, each output unblinds with its receiver key to (asset, value), reported \
+               factors (where reported) reproduce the commitments, stored blind_value_proof / blind_asset_proof verify. The \
+               number of scalars between steps is only counted. Non-trivial: >=2 parties and >=2 assets, or >=3 parties, or a \
+               party with >=2 outputs; distinct by (initial PSET, order).",
         assumptions: &[
             "outputs are only assigned to parties holding an input of that asset, and every party blinds at least one output (the statement's precondition)",
             "secp256k1-zkp is the trusted base",
